@@ -173,3 +173,13 @@ def queries():
         qs.append(mq("reuse", "C14_reuse.c", mode, nl, 1, 0, extra=["-DDIR=0", "-DA2L=16", "-DD2L=32"], unwind_extra=32, name_extra="-dec",
                      desc="as above; A has whole blocks, B is nearly empty"))
     return qs
+
+
+# ---- cross-included by the main session: C14's own queries run the AEAD glue over toy CTR / CTR+CBC-MAC classes; the
+# real counter/CBC-MAC classes under CCM and EAX (anchors src/symcipher/aes_ct_ctr.c, aes_ct_ctrcbc.c) are decided by
+# the C12 mode queries (every entry point == textbook CTR / CBC-MAC over an uninterpreted block function, incl. the
+# 128-bit counter carries); a seeded change there (C14b) must fail C14 as well.
+_c14_queries = queries
+def queries():
+    import C12
+    return _c14_queries() + [q for q in C12.queries() if q.tier == "quick" and q.name.startswith("modes-aes_ct") and "ctrcbc" in q.name]
